@@ -68,6 +68,13 @@ func main() {
 	for i := 0; i < *n && hangs < 2; i++ {
 		wc.Add(consumerCase(genConsumer(r)))
 	}
+	// concurrent YieldMessage callers on one partition consumer, as the sequential script of their linearisation
+	for i := 0; i < *n && hangs < 2; i++ {
+		wc.Add(concurrentYieldCase(r))
+	}
+	for i := 0; i < 4 && hangs < 2; i++ {
+		wc.Add(stressYieldCase(r))
+	}
 	wa.Close()
 	ws.Close()
 	wc.Close()
